@@ -64,6 +64,7 @@ func processorX(w, c, b, n, errAt, panicAt int, waits bool) func() vrt.Run {
 	return func() vrt.Run {
 		var got []string
 		var extra string
+		working := 0
 		batchKept := true
 		return vrt.Run{Body: func() {
 			queue := make(chan concurrent.Operator, c)
@@ -97,6 +98,7 @@ func processorX(w, c, b, n, errAt, panicAt int, waits bool) func() vrt.Run {
 				got = append(got, fmt.Sprint(v, e))
 			}
 			p.Wait()
+			working = p.Working() // Wait has returned: no worker is still at work
 			if waits {
 				p.Wait()
 			}
@@ -130,6 +132,9 @@ func processorX(w, c, b, n, errAt, panicAt int, waits bool) func() vrt.Run {
 			}
 			if extra != "<nil> <nil>" {
 				return "processor/not-closed", "receive after Wait returned " + extra + ", want closed channel", sig
+			}
+			if working != 0 {
+				return "processor/wait-returned-early", fmt.Sprintf("Wait returned while Working() = %d", working), sig
 			}
 			if !batchKept {
 				return "processor/batch-modified", "Process changed the slice of operations it was given", sig
@@ -376,6 +381,7 @@ func drivers(quick bool) []conc.Driver {
 		{[]string{"F1"}, []string{"F2", "W"}},
 		{[]string{"F1"}, []string{"F2", "W", "W"}},
 		{[]string{"X1"}, []string{"F2", "W"}},
+		{nil, []string{"X1", "W"}}, // nothing but the failure wakes the waiter
 		{[]string{"N"}, []string{"F2", "W"}},
 		{nil, []string{"N", "F2", "W"}},
 	}
